@@ -325,10 +325,14 @@ pub fn npn_canonization_res(
     panic!();
 }
 
-// TODO: handle 0 and 1 input cases, where the flip or swap list may be empty
-
 pub fn p_canonization(num_vars: usize, table: &mut [u64], best: &mut [u64], res_perm: &mut [u8]) {
-    if num_vars <= 6 {
+    if num_vars <= 1 {
+        // A single variable order: the swap list is empty and the function is its own representative
+        best.clone_from_slice(table);
+        for (i, p) in res_perm.iter_mut().enumerate() {
+            *p = i as u8;
+        }
+    } else if num_vars <= 6 {
         let best_ind =
             p_canonization_ind(num_vars, &mut table[0..1], &mut best[0..1], SWAPS[num_vars]);
         p_canonization_res(num_vars, res_perm, SWAPS[num_vars], best_ind);
@@ -340,7 +344,17 @@ pub fn p_canonization(num_vars: usize, table: &mut [u64], best: &mut [u64], res_
 }
 
 pub fn n_canonization(num_vars: usize, table: &mut [u64], best: &mut [u64]) -> u32 {
-    if num_vars <= 6 {
+    if num_vars == 0 {
+        // No input to flip: the flip list is empty and only the output complementation remains
+        best.clone_from_slice(table);
+        not_inplace(num_vars, table);
+        if cmp(table, best).is_lt() {
+            best.clone_from_slice(table);
+            1
+        } else {
+            0
+        }
+    } else if num_vars <= 6 {
         let best_ind =
             n_canonization_ind(num_vars, &mut table[0..1], &mut best[0..1], FLIPS[num_vars]);
         n_canonization_res(num_vars, FLIPS[num_vars], best_ind)
@@ -357,7 +371,13 @@ pub fn npn_canonization(
     best: &mut [u64],
     res_perm: &mut [u8],
 ) -> u32 {
-    if num_vars <= 6 {
+    if num_vars <= 1 {
+        // A single variable order: the swap list is empty, only complementations remain
+        for (i, p) in res_perm.iter_mut().enumerate() {
+            *p = i as u8;
+        }
+        n_canonization(num_vars, table, best)
+    } else if num_vars <= 6 {
         let best_ind = npn_canonization_ind(
             num_vars,
             &mut table[0..1],
